@@ -187,3 +187,41 @@ func VerifC15ProviderSet() {
 	vh.Assert(ok, "C15.updates-wellformed")
 	vh.Assert(vSetEq(got, storedSet, nv), "C15.updates-are-diff-to-recorded-set")
 }
+
+// VerifC15Genesis: InitGenesisValUpdates (chain start or restart from exported
+// genesis) records and hands to the consensus engine the same set: the first
+// min(M, bonded) validators of the staking order at their staking power, keyed
+// by their provider keys.
+func VerifC15Genesis() {
+	nv := vh.Bound("vals", 3)
+	e := newVEnv(nv)
+	m := vh.Int64("M")
+	vh.Assume(m >= 1)
+	vh.Assume(m <= 1<<62)
+	e.k.SetParams(e.ctx, vParams(m, 600))
+	for i := 0; i < nv; i++ {
+		vh.Assume(vh.Implies(e.st.isActive(i), e.st.power[i] >= 1))
+	}
+	ups := e.k.InitGenesisValUpdates(e.ctx)
+	vh.Reach("after-genesis")
+	stored, err := e.k.GetLastProviderConsensusValSet(e.ctx)
+	vh.Assert(err == nil, "C15.read-back")
+	ord := e.st.order()
+	want := len(ord)
+	if m < int64(len(ord)) {
+		want = vh.ConcretizeInt(int(m), 0, len(ord))
+	}
+	vh.Assert(len(stored) == want, "C15.genesis.size-is-min(M,bonded)")
+	vh.Assert(int64(len(stored)) <= m, "C15.never-exceeds-M")
+	storedSet, distinct := vSetOf(stored, nv)
+	vh.Assert(distinct, "C15.keys-distinct-and-provider-keys")
+	expect := vNewSet(nv)
+	for j := 0; j < want; j++ {
+		expect.in[ord[j]] = true
+		expect.power[ord[j]] = e.st.power[ord[j]]
+	}
+	vh.Assert(vSetEq(storedSet, expect, nv), "C15.genesis.recorded-set-is-top-M-by-staking-order")
+	got, ok := vApply(vNewSet(nv), ups, nv)
+	vh.Assert(ok, "C15.updates-wellformed")
+	vh.Assert(vSetEq(got, storedSet, nv), "C15.genesis.engine-receives-exactly-the-recorded-set")
+}
